@@ -380,14 +380,17 @@ func runHistory(h rhistory) (res renderOutcome) {
 	var queued []string // printed, not yet shown
 	histLine := h.line()
 	fail := func(prop, what, exp, obs string) {
-		if len(res.failures) < 3 {
+		if len(res.failures) < 4 {
 			res.failures = append(res.failures, finding{Property: prop, Class: "new", What: what, Input: histLine, Expected: exp, Observed: obs})
+			if prop == "C07" { // the final render is a render: C06 speaks about it too
+				res.failures = append(res.failures, finding{Property: "C06", Class: "new", What: what, Input: histLine, Expected: exp, Observed: obs})
+			}
 		}
 	}
 	curW, curH := h.w, h.h
 	viewStart := -1 // absolute row where the inline view starts (for "above" checks)
 	// the oracle's own bookkeeping, independent of the renderer's state
-	lastWritten := ""    // the most recent view handed to write ("" before any)
+	lastWritten := ""     // the most recent view handed to write ("" before any)
 	pendingWrite := false // a write happened since the last flush
 	var onScreen *string  // the view the oracle knows to be on screen (nil: unknown / disturbed)
 	for _, o := range h.ops {
@@ -497,6 +500,10 @@ func runHistory(h rhistory) (res renderOutcome) {
 			onScreen = &v
 			pendingWrite = false
 		}
+		viewProp := "C06"
+		if o.op == "st" {
+			viewProp = "C07" // the render that stop() performs: the final view
+		}
 		if rendered && after.AltScreenActive {
 			b := t.alt
 			for r := 0; r < curH; r++ {
@@ -508,7 +515,7 @@ func runHistory(h rhistory) (res renderOutcome) {
 					exp = "" // stop erases the cursor line
 				}
 				if got := b.text(b.top + r); got != exp {
-					fail("C06", "alt screen does not show exactly the latest view", fmt.Sprintf("row %d = %q", r, exp), fmt.Sprintf("%q", got))
+					fail(viewProp, "alt screen does not show exactly the latest view", fmt.Sprintf("row %d = %q", r, exp), fmt.Sprintf("%q", got))
 					break
 				}
 			}
@@ -536,7 +543,7 @@ func runHistory(h rhistory) (res renderOutcome) {
 					exp = "" // stop erases the cursor line
 				}
 				if got != exp {
-					fail("C06", "inline view rows do not show exactly the latest view", fmt.Sprintf("view line %d = %q", i, exp), fmt.Sprintf("%q", got))
+					fail(viewProp, "inline view rows do not show exactly the latest view", fmt.Sprintf("view line %d = %q", i, exp), fmt.Sprintf("%q", got))
 					break
 				}
 			}
